@@ -879,3 +879,13 @@ mutant("C09-M25", "C09", "R09f", "parameter scenario sanitises its own stored va
 mutant("C09-M26", "C09", "R09f", "budget scenario keeps the caller's allocation object", SC, "BudgetScenario.__init__", "sc.dcp(alloc)", "alloc")
 mutant("C09-M27", "C09", "R09f", "parameter scenario keeps the caller's values object", SC, "ParameterScenario.__init__", "sc.dcp(scenario_values)", "scenario_values")
 twin("C09-T8", "C09", "parset copied with copy.deepcopy", SC, "ParameterScenario.get_parset", "new_parset = sc.dcp(parset)", "new_parset = copy.deepcopy(parset)", edits=[dict(file=SC, old="import numpy as np\n", new="import copy\nimport numpy as np\n"), dict(file=SC, func="ParameterScenario.get_parset", old="new_parset = sc.dcp(parset)", new="new_parset = copy.deepcopy(parset)")])
+mutant("C09-M28", "C09", "R09c", "pinned baseline values not stored", SC, "ParameterScenario.get_parset", "                par.ts[pop_label].vals = vals.tolist()\n", "")
+mutant("C09-M29", "C09", "R09c", "baseline pinned up to the last overwrite year", SC, "ParameterScenario.get_parset", 'scen_start = min(overwrite["t"])', 'scen_start = max(overwrite["t"])')
+mutant("C09-M30", "C09", "R09c", "overwrite values inserted at the pinned threshold instead of their own year", SC, "ParameterScenario.get_parset", "par.ts[pop_label].insert(t, y)", "par.ts[pop_label].insert(scen_start, y)")
+mutant("C09-M31", "C09", "R09c", "baseline values interpolated onto all times", SC, "ParameterScenario.get_parset", "vals = par.interpolate(tvec[tvec < scen_start], pop_label)", "vals = par.interpolate(tvec, pop_label)")
+twin("C09-T9", "C09", "pinned times in a local first", SC, "ParameterScenario.get_parset", "                vals = par.interpolate(tvec[tvec < scen_start], pop_label)", "                vals = par.interpolate(tvec[tvec < scen_start], pop_label)\n                n_before = len(vals)")
+mutant("C16-M35", "C16", "R16m", "remove_pop deletes the covouts of every other population", PR, "ProgramSet.remove_pop", "if pop_name == code_name:", "if pop_name != code_name:")
+mutant("C16-M36", "C16", "R16m", "remove_comp leaves the compartment in the program targets", PR, "ProgramSet.remove_comp", "                prog.target_comps.remove(code_name)\n", "                pass\n")
+mutant("C16-M37", "C16", "R16m", "remove_program does not refresh the covout cache", PR, "ProgramSet.remove_program", "                    self.covouts[(par, pop)].update_outcomes()", "                    pass")
+mutant("C16-M38", "C16", "R16m", "remove_par keeps the parameter entry", PR, "ProgramSet.remove_par", "        del self.pars[code_name]", "        pass")
+twin("C16-T9", "C16", "remove_pop tests the key the other way round", PR, "ProgramSet.remove_pop", "if pop_name == code_name:", "if code_name == pop_name:")
